@@ -752,6 +752,8 @@ def run(ctx):
     import extractlib; extractlib.fn_tie(ctx, "C19")   # parse.getImportPathFromCommentGroup / getImportPath re-translated from the tree and proved equal to ImportTag's tag parser (DESIGN 3.5)
     import extractlib; extractlib.tables_tie(ctx, ['importTag'])   # literal data of the source re-proved equal to the models' (DESIGN 3.5)
     ctx.trusted_base += [
+        "translator tie (extractlib.fn_tie, tools/notes/Translator.md section 10): parse.getImportPathFromCommentGroup / getImportPath are re-translated from the tree on every run and proved equal to ImportTag's tag parser (x_fromCommentGroup_ImportTag, x_getImportPath_ImportTag, x_getImportPath_bad_literal); the translator is trusted for that part, the rest of the model is tied behaviourally",
+        "the go tool's environment is part of a case: GOFLAGS (build tags) of the project is also the environment of the measured `go list`; GOOS/GOARCH are not (mage forces the host platform)",
         "command-line histories: mage's default mode rebuilds on every invocation (GOCACHE in use), hash mode reuses the binary named after the magefiles' hash - the C08 model",
         "harness/unitrun op importseq (parse.PrimaryPackage called repeatedly in one process)",
         "harness/importast (go/parser's view of the import declarations: Doc/Comment groups, Lparen, path literal) - standard library only",
